@@ -4,3 +4,6 @@ package config
 
 // VerifFixCluster applies the real normalisation of the cluster section (lease timeout / renew interval clamps).
 func VerifFixCluster(cc *ClusterConfig) error { return cc.fix() }
+
+// VerifFixReplay applies the real normalisation of the replay section (defaults, mode, key-exists policy spelling).
+func VerifFixReplay(rc *ReplayConfig) error { return rc.fix() }
